@@ -38,8 +38,8 @@ CLAIMED = {
         note='Partial: type-id and any-carries-type clauses only. compile_meta_builtins (the data reflection reads) and core/src/meta.capy are not under contract; the memo lookup of to_type_id (iterator find) is assumed; recursive calls are stubs.',
         ref='DESIGN.md 5 (C18)'),
     'C19': dict(
-        text="Deductive proof over the real text of crates/codegen/src/convert/abi/x86_64.rs against the System V AMD64 psABI section 3.2.3 as transcribed in units/abi/spec.rs: Class::merge_eigthbyte is the psABI merge (rules a, b, d, f; commutative, associative); the post-merger clean-up of classify_arg (lifted) implements rules (c) and (d); reg_component / split_aggregate give every eightbyte of an aggregate of 1..16 bytes a register of that eightbyte's class wide enough for the bytes left, the second one starting at byte 8; fn_ty_to_abi hands out the six integer and eight vector registers left to right exactly as the psABI prescribes -- an argument gets registers only if ALL its eightbytes get one, otherwise it goes to memory and consumes none, a MEMORY-class return value costs %rdi, zero-sized arguments cost nothing -- for every signature with any number of parameters.",
-        note='Partial: classify_eight_byte (which class each field contributes) is a stub here -- fn_ty_to_abi is proved for ANY classification satisfying classes_ok; FnAbi::{to_cl,get_arg_list,ret_addr,handle_ret,build_fn} (the loads/stores that move the eightbytes) are not under contract; Cranelift is trusted to assign the host registers to the value types computed; only the x86-64 SysV file is covered (aarch64 / windows / simplified are not); comparison with the host gcc is not part of the proof.',
+        text="Deductive proof over the real text of crates/codegen/src/convert/abi/x86_64.rs against the System V AMD64 psABI section 3.2.3 as transcribed in units/abi/spec.rs: Class::merge_eigthbyte is the psABI merge (rules a, b, d, f; commutative, associative); classify_eight_byte gives every eightbyte of ANY type (scalars, arrays, structs, enums, optionals, error unions, distinct types, nested to any depth) the merge of the classes of the scalars that lie in it (recursive spec eb_class, unbounded induction over the type); classify_arg returns exactly that for types of at most 16 bytes and MEMORY otherwise; the post-merger clean-up of classify_arg (lifted) implements rules (c) and (d); reg_component / split_aggregate give every eightbyte of an aggregate of 1..16 bytes a register of that eightbyte's class wide enough for the bytes left, the second one starting at byte 8; fn_ty_to_abi hands out the six integer and eight vector registers left to right exactly as the psABI prescribes -- an argument gets registers only if ALL its eightbytes get one, otherwise it goes to memory and consumes none, a MEMORY-class return value costs %rdi, zero-sized arguments cost nothing -- for every signature with any number of parameters.",
+        note='Partial: FnAbi::{to_cl,get_arg_list,ret_addr,handle_ret,build_fn} (the loads/stores that move the eightbytes) are not under contract; Cranelift is trusted to assign the host registers to the value types computed; domain conditions (explicit preconditions): layouts of all parts known, size != 64 bytes, 8-byte pointers, no pure-padding eightbyte in a small aggregate, scalars aligned (C17); only the x86-64 SysV file is covered (aarch64 / windows / simplified are not); comparison with the host gcc is not part of the proof.',
         ref='DESIGN.md 5 (C19)'),
     'C25': dict(
         text='Deductive proof over the real text of LineIndex::line_col, Index<LineNr>::index and the Sub impls: for every text, every index built from it and every offset in it, line = number of newlines before the offset and column = offset - start of that line; no underflow, no out-of-bounds.',
